@@ -235,7 +235,7 @@ class MappedDFTKernel2(KernelEvalBase2, XCEvalSerializable):
             f = f.reshape(X0T.shape[0], -1)
             df = df.reshape(X0T.shape[0], -1, self.N1)
         if rhocut > 0:
-            cond = rho_tuple[0] < rhocut
+            cond = rho_tuple[0] * rho_tuple[0].shape[0] < rhocut
             if self.mode == "SEP":
                 f[cond] = 0.0
                 df[cond] = 0.0
